@@ -212,6 +212,13 @@ class Exec:
                 for subj, ik in f.get("initial_subjects", []):
                     if ik in ref["rows"]:
                         lines.append([subj] + ref["rows"][ik])
+                bulk = f.get("initial_bulk")
+                if bulk and ref["rows"]:
+                    # hundreds of finished subjects: files and claim lists larger than the
+                    # buffers of the I/O stack (several read/write system calls per pass)
+                    any_row = ref["rows"][sorted(ref["rows"])[0]]
+                    for i in range(bulk):
+                        lines.append([f"bulk{i:05d}"] + any_row)
             import csv
 
             with open(p, "w", encoding="utf8", newline="") as fh:
@@ -263,6 +270,9 @@ class Exec:
                 # the name handed to the constructor may lack the extension (the library adds
                 # ".tsv") - the file it must produce is `fname` either way
                 target = os.path.join(self.work, f.get("given", fname))
+                if plan["knobs"].get("relpath"):
+                    # the phase image's working directory is the output directory
+                    target = plan["knobs"]["relpath"] + f.get("given", fname)
                 if sess.get("path_kind") == "path":
                     target = agg_mod.Path(target)
                 s.current.ctx["file"] = fname
@@ -445,6 +455,12 @@ class Exec:
         if f.get("initial") == "rows":
             for subj, ik in f.get("initial_subjects", []):
                 out.setdefault(subj, set()).add(ik)
+            if f.get("initial_bulk"):
+                ref = self.ref[bool(f.get("log_times"))]
+                if ref["rows"]:
+                    k0 = sorted(ref["rows"])[0]
+                    for i in range(f["initial_bulk"]):
+                        out.setdefault(f"bulk{i:05d}", set()).add(k0)
         for ph in self.plan["phases"]:
             for sess in ph["sessions"]:
                 for ops in sess["tasks"]:
@@ -472,6 +488,8 @@ class Exec:
         self.phase_idx = pi
         lt = ("panoptica_aggregator.py",) if k.get("line_preempt") else ()
         s = Scheduler(self.chooser, budget=k.get("budget", 20000), line_trace_files=lt)
+        if k.get("relpath") is not None:
+            os.chdir(self.work)
         self.sched = s
         w = WORLD
         w.sched = s
@@ -621,6 +639,8 @@ class Exec:
                                     must.add(op[2])
             if f.get("initial") == "rows":
                 must |= {s for s, ik in f.get("initial_subjects", []) if ik in ref["rows"]}
+                if f.get("initial_bulk") and ref["rows"]:
+                    must |= {f"bulk{i:05d}" for i in range(f["initial_bulk"])}
             names = [r[0] if r else None for r in rows[1:]]
             counts = {}
             for n in names:
